@@ -5,15 +5,17 @@ ID = "C04"
 LEVEL = "proof"
 PROPERTIES_MODULE = "Properties.C04"
 COQ_TARGETS = ["Properties/C04.vo", "Model/Dispatch.vo"]
-THEOREMS = ["C04_source_flags", "C04_setsketch_set_semantics", "C04_dens_set_semantics", "C04_dens_holds_streamed_hash"]
+THEOREMS = ["C04_source_flags", "C04_setsketch_set_semantics", "C04_dens_set_semantics", "C04_dens_holds_streamed_hash",
+            "C04_superminhash_set_semantics", "C04_superminhash2_set_semantics", "C04_superminhash2_holds_streamed_hash"]
 AXIOMS_ALLOWED = []
 TRANSLATORS = [("flags-smh", sklib.translate_flags_smh), ("flags-dens", sklib.translate_flags_dens)]
 TRUSTED_BASE = [
     "hand-written models coq/Model/{SetSketch,SuperMinHash,SuperMinHash2,DensMinHash}.v, each compared with the real sketcher on "
     "every field over generated histories (hooks verif_state)",
-    "theorems cover SetSketch (registers = maximum over the SET of draws) and the densified sketchers (per-bin lexicographic "
-    "minimum of (value, hash): same set of items => same arrays); for SuperMinHash and SuperMinHash2 the characterisation "
-    "theorems are not yet proved: their set semantics is decided by correspondence + implementation-level search only",
+    "theorems cover all five: SetSketch (registers = maximum over the SET of draws), densified sketchers (per-bin lexicographic "
+    "minimum of (value, hash)), SuperMinHash (position = minimum over items of the value the item's own lazily generated "
+    "permutation puts there; histogram / a_upper pruning proved sound; float values abstracted as (key, integer part = F key), F "
+    "monotone), SuperMinHash2 (position = lexicographic minimum of (round, value), stored hash under tie_free)",
     "translate/tr_flags.py (which alternative of the histogram update / tie rule the source implements)",
     "extraction (ExtrOcamlBasic) + ocaml/driver.ml",
 ]
